@@ -267,6 +267,18 @@ ConfV1Liquidate(nd) == nd.a = "V1Liquidate" /\ ~Cfg(nd).interest /\ ~IsRoot(nd) 
 
 ConfV1Bid(nd) == nd.a = "V1Bid" /\ ~IsRoot(nd) /\ (Ok(nd) => nd.args.v \in V1AuctionIds(Pre(nd)) /\ ~OwnBidV1(nd)) => V1BidConforms(Cfg(nd), Pre(nd), nd.args, Ok(nd), Post(nd))
 ConfV1Tick(nd) == nd.a = "V1Tick" /\ ~IsRoot(nd) => V1TickConforms(Cfg(nd), Pre(nd), Ok(nd), Post(nd))
+(* ------------------------------------ emergency shutdown life cycle (beyond the listed properties: `bin/extra esm`) ------------------------------------ *)
+XStages(nd)    == IF IsRoot(nd) THEN StagesOrdered(Post(nd)) ELSE StagesMonotone(Pre(nd), Post(nd)) /\ StagesOrdered(Post(nd))
+XSnapshot(nd)  == ~IsRoot(nd) => SnapshotFixed(Pre(nd), Post(nd)) /\ WindowFixed(Pre(nd), Post(nd))
+XNoVaultAfter(nd) == ~IsRoot(nd) => NoVaultAfterStage(Pre(nd), Post(nd))
+XBookBacked(nd) == \A d \in CollDenoms : IF IsRoot(nd) THEN EsmHeld(Post(nd), d) >= EsmColl(Post(nd), d) ELSE BookBacked(Pre(nd), Post(nd), d)
+XVaultStage(nd) == ~IsRoot(nd) /\ nd.st.ev.esmVaultRed => VaultStageExact(Cfg(nd), Pre(nd), Post(nd))
+XRedeemBurns(nd) == nd.a = "EsmRedeem" /\ Ok(nd) => RedeemBurns(Pre(nd), Post(nd), U(nd), nd.args.x)
+XRedeemPays(nd)  == nd.a = "EsmRedeem" /\ Ok(nd) => \A d \in CollDenoms : RedeemPaysFromBook(Pre(nd), Post(nd), U(nd), d)
+XRedeemProRata(nd) == nd.a = "EsmRedeem" /\ Ok(nd) => \A d \in CollDenoms : RedeemWithinProRata(Pre(nd), Post(nd), U(nd), nd.args.x, d)
+XRedeemAfterShares(nd) == nd.a = "EsmRedeem" /\ Ok(nd) => Pre(nd).esm.shareCalc /\ Pre(nd).t >= Pre(nd).esm.end
+XRejected(nd) == nd.a \in {"EsmDeposit", "EsmExecute", "EsmRedeem"} /\ ~Ok(nd) /\ ~IsRoot(nd) => Post(nd) = Pre(nd)
+
 ConfEsm(nd) == nd.a \in {"EsmDeposit", "EsmExecute"} /\ ~IsRoot(nd) => EsmStepConforms(Cfg(nd), Pre(nd), nd.a, nd.args, Ok(nd), Post(nd))
 ConfVault(nd) == nd.a \in VaultOps /\ ~Cfg(nd).interest /\ ~IsRoot(nd) => VaultStepConforms(Cfg(nd), Pre(nd), nd.a, nd.args, Ok(nd), Post(nd))
 
@@ -287,6 +299,8 @@ Formulas == <<"C13_CollectorDelta", "C13_NetFeesNonNeg", "C13_CollectorBacked", 
               "C10_StartPrice", "C10_CustodyColl", "C10_CustodyDebt", "C10_OwnerGetsRest", "C10_PenaltyRouted", "C10_ExternalProceeds",
               "C02_BurnAtClose_V1", "C09_SeizeExact_V1", "C09_CustodyMoves_V1", "C09_Live_V1",
               "C10_PostedPrice_V1", "C10_BidBooked_V1", "C10_PriceNotAboveStart_V1", "C10_PriceNotBelowEnd_V1", "C10_PriceFloor_V1", "C10_StartPrice_V1", "C10_CustodyColl_V1", "C10_CustodyDebt_V1", "C10_PenaltyRouted_V1",
+              "XESM_Stages", "XESM_SnapshotFixed", "XESM_NoVaultAfterStage", "XESM_BookBacked", "XESM_VaultStage", "XESM_RedeemBurns", "XESM_RedeemPaysFromBook",
+              "XESM_RedeemWithinProRata", "XESM_RedeemAfterShares", "XESM_RejectedChangesNothing",
               "Conf_Vault", "Conf_Block", "Conf_V1Sweep", "Conf_V1Liquidate", "Conf_V1Bid", "Conf_V1Tick", "Conf_Esm">>
 Holds(f, i) ==
   LET nd == Nd(i) IN
@@ -341,6 +355,16 @@ Holds(f, i) ==
     [] f = "Conf_V1Bid" -> ConfV1Bid(nd)
     [] f = "Conf_V1Tick" -> ConfV1Tick(nd)
     [] f = "Conf_Esm" -> ConfEsm(nd)
+    [] f = "XESM_Stages" -> XStages(nd)
+    [] f = "XESM_SnapshotFixed" -> XSnapshot(nd)
+    [] f = "XESM_NoVaultAfterStage" -> XNoVaultAfter(nd)
+    [] f = "XESM_BookBacked" -> XBookBacked(nd)
+    [] f = "XESM_VaultStage" -> XVaultStage(nd)
+    [] f = "XESM_RedeemBurns" -> XRedeemBurns(nd)
+    [] f = "XESM_RedeemPaysFromBook" -> XRedeemPays(nd)
+    [] f = "XESM_RedeemWithinProRata" -> XRedeemProRata(nd)
+    [] f = "XESM_RedeemAfterShares" -> XRedeemAfterShares(nd)
+    [] f = "XESM_RejectedChangesNothing" -> XRejected(nd)
     [] f = "Conf_Vault" -> ConfVault(nd)
     [] f = "Conf_Block" -> ConfBlock(nd)
 
